@@ -6,6 +6,8 @@ path has its own z3 solver holding the path condition.  Obligations are checked
 where they arise (pc /\\ not goal must be unsat) and reported to the Explorer.
 """
 import ast
+import contextlib
+import functools
 import builtins
 import inspect
 import operator
@@ -755,6 +757,13 @@ class Interp:
                   for a, d in zip(s.args.kwonlyargs, s.args.kw_defaults)
                   if d is not None}
     clo = Closure(s, frame, s.name, defaults=defaults, kwdefaults=kwdefaults)
+    for d in s.decorator_list:
+      dv = self.eval(d, frame)
+      if dv is contextlib.contextmanager:
+        # a nested generator context manager: calling it yields a CMInstance
+        clo = NativeFn(lambda ip, a, k, c=clo: CMInstance(ip, c, list(a), dict(k)))
+      else:
+        raise Unsupported(f'decorator {ast.unparse(d)} on nested function {s.name}')
     frame.locals[s.name] = clo
 
   def st_Try(self, s, frame):
@@ -2225,6 +2234,15 @@ def _cm_driver(interp, pyfunc, args, kwargs):
   """Drives interpretation of a generator function body, suspending at
   `yield` by running the interpreter in a nested greenlet-less way: the body is
   split at the yield statement syntactically."""
+  if isinstance(pyfunc, Closure):
+    clo = pyfunc
+    node = clo.node
+    locals_ = interp.bind_args(node.args, args, kwargs, clo.defaults, clo.kwdefaults, clo.name)
+    parent = clo.frame
+    frame = Frame(locals_, parent.globals if parent else {}, parent.info if parent else None,
+                  False, parent=parent, cls=parent.cls if parent else None, name=clo.name)
+    yield from _run_gen_block(interp, node.body, frame)
+    return
   info = frontend.get_funcinfo(pyfunc)
   node = info.node
   f = info.pyfunc
